@@ -25,7 +25,7 @@ def _extra(ob):
     from . import spec as _spec
     ex = getattr(ob, "_extra", None)
     if ex is None:
-        ex = _spec.unfold_closure(list(ob.hyps) + [ob.goal])
+        ex = _spec.unfold_closure(list(ob.hyps) + [ob.goal], getattr(ob, 'unfold_depth', None))
         try:
             ob._extra = ex
         except AttributeError:
